@@ -201,3 +201,15 @@ PROPS["C04"] = {
         {"name": "C04.verdicts", "test": "TestVerifC04Verdicts", "shards": 16},
     ],
 }
+
+PROPS["C12"] = {
+    "claimed": False,
+    "level": "exploration",
+    "level_text": "TODO",
+    "level_note": "TODO",
+    "technique": "TODO",
+    "rule": "TODO",
+    "monitors": [
+        {"name": "C12.hostile", "test": "TestVerifC12Hostile", "shards": 16},
+    ],
+}
